@@ -1179,6 +1179,10 @@ func (w *_structAssembler) AssembleValue() datamodel.NodeAssembler {
 	if len(ftyp.Index) > 1 {
 		return _errorAssembler{fmt.Errorf("bindnode TODO: embedded fields")}
 	}
+	if w.doneFields[ftyp.Index[0]] {
+		// The field was already assembled; reject before touching anything.
+		return _errorAssembler{datamodel.ErrRepeatedMapKey{Key: basicnode.NewString(name)}}
+	}
 	w.doneFields[ftyp.Index[0]] = true
 	fval := w.val.FieldByIndex(ftyp.Index)
 	if field.IsOptional() {
@@ -1205,6 +1209,10 @@ func (w *_structAssembler) AssembleEntry(k string) (datamodel.NodeAssembler, err
 		return nil, err
 	}
 	am := w.AssembleValue()
+	if rejected, ok := am.(_errorAssembler); ok {
+		// The key was rejected (unknown or repeated field): say so now, as the contract of AssembleEntry asks.
+		return nil, rejected.err
+	}
 	return am, nil
 }
 
@@ -1278,6 +1286,10 @@ func (w *_mapAssembler) AssembleKey() datamodel.NodeAssembler {
 
 func (w *_mapAssembler) AssembleValue() datamodel.NodeAssembler {
 	kval := w.curKey.val
+	if w.valuesVal.MapIndex(kval).IsValid() {
+		// The key is already present; reject before touching anything.
+		return _errorAssembler{datamodel.ErrRepeatedMapKey{Key: newNode(w.cfg, w.schemaType.KeyType(), kval)}}
+	}
 	val := reflect.New(w.valuesVal.Type().Elem()).Elem()
 	finish := func() error {
 		// TODO: check for duplicates in keysVal
@@ -1300,6 +1312,9 @@ func (w *_mapAssembler) AssembleEntry(k string) (datamodel.NodeAssembler, error)
 		return nil, err
 	}
 	am := w.AssembleValue()
+	if rejected, ok := am.(_errorAssembler); ok {
+		return nil, rejected.err
+	}
 	return am, nil
 }
 
@@ -1394,6 +1409,15 @@ func (w *_unionAssembler) AssembleValue() datamodel.NodeAssembler {
 			},
 		}
 	}
+	if haveIdx, _ := unionMember(w.val); haveIdx >= 0 {
+		// A member was already assembled; a second entry must not silently replace it.
+		return _errorAssembler{
+			schema.ErrNotUnionStructure{
+				TypeName: w.schemaType.Name(),
+				Detail:   "a union must have exactly one entry",
+			},
+		}
+	}
 
 	goType := w.val.Field(idx).Type().Elem()
 	valPtr := reflect.New(goType)
@@ -1414,6 +1438,9 @@ func (w *_unionAssembler) AssembleEntry(k string) (datamodel.NodeAssembler, erro
 		return nil, err
 	}
 	am := w.AssembleValue()
+	if rejected, ok := am.(_errorAssembler); ok {
+		return nil, rejected.err
+	}
 	return am, nil
 }
 
